@@ -118,7 +118,7 @@ const OPS: &[&str] = &[
     "grouparr", "or", "choice", "choicev", "ornot", "not", "andis", "rewind", "map", "to", "ignored", "filter", "trymap", "trymapw", "validate",
     "mw", "tospan", "toslice", "boxed", "lazy", "collect", "exact", "run", "foldl", "foldr", "foldlw", "foldrw", "recover", "label", "maperr",
     "memo", "rec", "recd", "ref", "let", "var", "withctx", "thenctx", "ignctx", "mapctx", "withstate", "nested", "tree", "pratt", "rep", "sep", "enum", "cfgrep", "cfgrepmin", "cfgrepmax", "cfgreptry",
-    "via", "skipuntil", "retry", "nesteddelim", "mws", "prog", "anyr", "selr", "text", "tpadded", "sleq", "newline",
+    "via", "skipuntil", "retry", "nesteddelim", "mws", "prog", "intoiter", "anyr", "selr", "text", "tpadded", "sleq", "newline",
 ];
 fn is_node(j: &J) -> bool {
     j.as_array().and_then(|a| a.first()).and_then(|o| o.as_str()).map_or(false, |o| OPS.contains(&o))
